@@ -206,7 +206,7 @@ def claims3(oset, p, nu, prm, L, tau=2e-4, tol=1e-6):
         cl = polygon_claims(oset.corners(prm), p, nu, L, tau, tol)
     elif isinstance(oset, (O.OUnion, O.OCut, O.OInter)):
         a, b = oset.a, oset.b
-        on_a, on_b = a.boundary_band(p, prm, L, 0), b.boundary_band(p, prm, L, 0)
+        on_a, on_b = on_some_piece(a, p, prm, L), on_some_piece(b, p, prm, L)  # equalities: robust in float replays
         if isinstance(oset, O.OUnion):
             cond_a = L.And(on_a, L.Not(b.closure(p, prm, L, tau)))
             cond_b = L.And(on_b, L.Not(a.closure(p, prm, L, tau)))
@@ -236,7 +236,7 @@ def selected(oset, p, prm, L, tau=2e-4):
     """the point lies on a boundary part the claims speak about (vacuity guard for composites)"""
     if isinstance(oset, (O.OUnion, O.OCut, O.OInter)):
         a, b = oset.a, oset.b
-        on_a, on_b = a.boundary_band(p, prm, L, 0), b.boundary_band(p, prm, L, 0)
+        on_a, on_b = on_some_piece(a, p, prm, L), on_some_piece(b, p, prm, L)  # equalities: robust in float replays
         if isinstance(oset, O.OUnion):
             return L.Or(L.And(on_a, L.Not(b.closure(p, prm, L, tau)), selected(a, p, prm, L, tau)),
                         L.And(on_b, L.Not(a.closure(p, prm, L, tau)), selected(b, p, prm, L, tau)))
@@ -245,7 +245,7 @@ def selected(oset, p, prm, L, tau=2e-4):
                         L.And(on_b, a.interior(p, prm, L, tau), selected(b, p, prm, L, tau)))
         return L.Or(L.And(on_a, b.interior(p, prm, L, tau), selected(a, p, prm, L, tau)),
                     L.And(on_b, a.interior(p, prm, L, tau), selected(b, p, prm, L, tau)))
-    return oset.boundary_band(p, prm, L, 0)
+    return on_some_piece(oset, p, prm, L)
 
 
 # ---- composition layer on arbitrary operands -----------------------------------
